@@ -108,6 +108,9 @@ BENIGN = [
     ('b42-bvec3a-all-popcount', 'src/bool/sse2/bvec3a.rs', 'self.bitmask() == 0x7', 'self.bitmask().count_ones() == 3', ['C15', 'C01', 'C07'], 'all() through popcount'),
     ('b43-bvec3a-mask-wrapping-neg', 'src/bool/sse2/bvec3a.rs', 'MASK[x as usize], MASK[y as usize], MASK[z as usize], 0', '(x as u32).wrapping_neg(), (y as u32).wrapping_neg(), (z as u32).wrapping_neg(), 0', ['C15', 'C08'], 'mask lanes built with wrapping_neg'),
     ('b44-dvec3-is-normalized-two-sided', 'src/f64/dvec3.rs', 'math::abs(self.length_squared() - 1.0) <= 2e-4', '{\n            let d = self.length_squared() - 1.0;\n            -2e-4 <= d && d <= 2e-4\n        }', ['C20', 'C02'], 'is_normalized as a two-sided range test'),
+    ('b45-vec4-neg-zero-minus', 'src/f32/sse2/vec4.rs', '_mm_xor_ps(_mm_set1_ps(-0.0), self.0)', '_mm_sub_ps(_mm_setzero_ps(), self.0)', ['C01'], 'negation as 0 - x (differs only in the sign of zero, which C01 does not distinguish)'),
+    ('b46-dvec3-clamp-min-first', 'src/f64/dvec3.rs', 'self.max(min).min(max)', 'self.min(max).max(min)', ['C01', 'C17'], 'clamp in the other order (equal for min <= max)'),
+    ('b47-i16vec3-clamp-min-first', 'src/i16/i16vec3.rs', 'self.max(min).min(max)', 'self.min(max).max(min)', ['C13'], 'integer clamp in the other order'),
     ('b09-cross-operand-order', 'src/f32/vec3.rs', 'x: self.y * rhs.z - rhs.y * self.z,', 'x: self.y * rhs.z - self.z * rhs.y,', ['C02', 'C03', 'C07', 'C11'], 'commuted product inside cross'),
 ]
 
